@@ -251,10 +251,14 @@ def updateLoop (now : Int) (spec document : Val) (nowV : Val) (multi : Bool) :
         | .ok new =>
           if (if c.isOD key then pyEqOrdered new cur else pyEq new cur) then
             -- `existing_document != snapshot` is Python `!=`: a change of key order or of
-            -- numeric type (1 → 1.0 → True) is not "modified", but the document was edited in place
+            -- numeric type (1 → 1.0 → True) is not "modified", but the document was edited in place:
+            -- the unique indexes are checked all the same (the `else` branch of the change test)
             let c0 := c.setDoc key new
-            if multi then updateLoop now spec document nowV multi rest c0 (matched + 1) updated
-            else (c0, .ok (matched + 1, updated))
+            match ensureUniques now c0 new with
+            | .error e => (c, .error e)
+            | .ok c2 =>
+              if multi then updateLoop now spec document nowV multi rest c2 (matched + 1) updated
+              else (c2, .ok (matched + 1, updated))
           else
             -- the `_id` must neither change nor appear / disappear
             let idOf (d : Val) : Option Val := match d with | .doc fs => dget "_id" fs | _ => none
